@@ -121,13 +121,12 @@ theorem opLock_hok (db : DB) (c : Cmd) (h : HInv db) : HInv (opLock db c).1 := b
   | update h' =>
     have hm := classifyLock_mem db c h' (by rw [hb]; rfl)
     simp only [applyLock]
-    exact setKey_hok (h.of_keys_eq (updateHold_db_keys _ _ _)) (replace_hok hk (updateHold_hok _ _ _ (hk h' hm)))
+    exact wake_setKey_hok _ h (updateHold_db_keys _ _ _) (replace_hok hk (updateHold_hok _ _ _ (hk h' hm)))
   | relock h' =>
     have hm := classifyLock_mem db c h' (by rw [hb]; rfl)
     simp only [applyLock]
-    apply setKey_hok
-    · exact h.of_keys_eq (by simp [updateHold_db_keys])
-    · exact fun x hx => replace_hok hk (h := h') (updateHold_hok db { h' with depth := h'.depth + 1 } c (hk h' hm)) x hx
+    exact wake_setKey_hok _ h (by simp [updateHold_db_keys])
+      (fun x hx => replace_hok hk (h := h') (updateHold_hok db { h' with depth := h'.depth + 1 } c (hk h' hm)) x hx)
   | grant =>
     simp only [applyLock]
     have hg := grantHold_hok db (db.getKey c.key) c hk
@@ -150,7 +149,7 @@ theorem opUnlock_hok (db : DB) (c : Cmd) (h : HInv db) : HInv (opUnlock db c).1 
   | stateError | notLocked | unown | cancelNone => exact h.of_keys_eq rfl
   | cancel w =>
     simp only [applyUnlock]
-    exact setKey_hok (h.of_keys_eq rfl) hk
+    exact wake_setKey_hok _ h rfl hk
   | dec h' c' =>
     have hm := classifyUnlock_mem db c h' (by rw [hb]; rfl)
     simp only [applyUnlock]
@@ -161,7 +160,7 @@ theorem opUnlock_hok (db : DB) (c : Cmd) (h : HInv db) : HInv (opUnlock db c).1 
 
 theorem fireTimeout_hok (db : DB) (key : Nat) (w : Waiter) (h : HInv db) : HInv (fireTimeout db key w).1 := by
   unfold fireTimeout
-  exact setKey_hok (h.of_keys_eq rfl) (getKey_hok h _)
+  exact wake_setKey_hok _ h rfl (getKey_hok h _)
 
 theorem fireExpire_hok (db : DB) (key : Nat) (hd : Hold) (h : HInv db) : HInv (fireExpire db key hd).1 := by
   unfold fireExpire
